@@ -253,6 +253,7 @@ def run(rep, tier):
     rep.guard("R17.5", "Rust selection", lambda: r5_rust(rep))
     rep.guard("R17.5", "MoonBit plans", lambda: r5_moonbit(rep))
     rep.guard("R17.5", "who constructs async variants", lambda: r5_constructors(rep))
+    rep.guard("R17.5", "who prints an async prefix", lambda: r5_printers(rep))
     rep.guard("R17.6", "parse / Display", lambda: r6_parse_display(rep))
 
 
@@ -1285,6 +1286,44 @@ def r5_constructors(rep):
                        "an asynchronous ABI variant is chosen outside the functions that consult is_async", f.loc(b))
     rep.floor("R17.5", "constructions of asynchronous AbiVariants in the backends", n, 7)
 
+
+
+# functions that may spell the `[async-lower]` / `[async-lift]` prefix of a *function* name (intrinsic names such as
+# `[async-lower][stream-read-0]f` continue with `[` and belong to the stream / future properties)
+PREFIX_PRINTERS = {
+    C_LIB: {"import", "export"},
+    GO_LIB: {"import", "export"},
+    RUST_IF: {"generate_guest_import_body_async", "generate_raw_cabi_export"},
+}
+PREFIX_DIRS = ("crates/rust/src/", "crates/c/src/", "crates/go/src/", "crates/moonbit/src/")
+
+
+def r5_printers(rep):
+    import re as _re
+    pat = _re.compile(r"\[async-(lower|lift)\](?!\[)")
+    n = 0
+    for rel in sorted(synq.files()):
+        if not rel.startswith(PREFIX_DIRS):
+            continue
+        ast = synq.load(rel)
+        hits = [x for x in synq.walk(ast) if x.get("k") == "str" and isinstance(x.get("v"), str) and pat.search(x["v"])]
+        if not hits:
+            continue
+        rep.saw(file=rel)
+        fns = synq.all_fns(rel)
+        for h in hits:
+            ln = synq.line(h)
+            encl = [g for g in fns if g.node["sp"][0] <= ln <= g.node["sp"][2]]
+            encl.sort(key=lambda g: g.node["sp"][2] - g.node["sp"][0])
+            g = encl[0] if encl else None
+            if g is not None and ("tests" in g.mod or "test" in g.mod):
+                continue
+            n += 1
+            name = g.name if g is not None else "<item>"
+            rep.ob("R17.5", f"{rel}: `{pat.search(h['v']).group(0)}` function prefix is spelled in {name} (a checked selection site)",
+                   name in PREFIX_PRINTERS.get(rel, ()), "an async function-name prefix is printed outside the functions "
+                   "whose selection is checked against the answer of is_async", f"{rel}:{ln}")
+    rep.floor("R17.5", "spellings of the async function-name prefixes in the backends", n, 6)
 
 
 # ================================================================================================================
